@@ -62,7 +62,7 @@ def table(ctx, rid, observed=()):
             if k.endswith("Vec::push") or any(k == MF.MOVE + s for s in observed):
                 seeds.append(bi)
     sl = Slicer(f)
-    sl.backward([], seeds)
+    sl.backward_from_blocks(seeds)
     inl = Inliner(prog, only=lambda k: k in (BB + "is_white_turn",))
     try:
         leaves = explore(f, var_of, domains, inliner=inl, keep_mem=lambda k: k.startswith(MF.MOVE), max_leaves=60000, relevant=set(sl.last_blocks))
